@@ -578,6 +578,9 @@ class Configuration(_Configuration):
 
         # clearing the current configuration to be able to re-parse it
         self._clear()
+        # and what a previous, refused, reload left in the parsers: without this the next good
+        # file was refused too ('a process section called ... already exists', 'duplicate peer definition')
+        self._cleanup()
 
         if self._text:
             if not self.parser.set_text(fname):
